@@ -181,7 +181,7 @@ def bedCase (c : Case) : List String :=
   | some e => [s!"R err {errClass e}", "OPEN err refused-leftover"]   -- a refused input leaves nothing a reader opens (C14)
   | none =>
     let text := autosql.getD BED3
-    let fc := ASN.fieldCount ASN.asciiCC true text
+    let fc := ASN.fieldCount ASN.rustCC true (utf8Decode text)
     let sms := runs.map fun (_, es) => bedChromSummary (es.map fun x => (x.s, x.e))
     let t := match sms with
       | [] => (⟨0, 0, 0, 0, 0⟩ : BSUM.Sm)
@@ -275,13 +275,13 @@ def bedBytesCase (c : Case) : List String :=
     let sorted := (z.toArray.qsort (· < ·)).toList.take 10
     let input := runs.map fun (n, es) => (nameBytes n, ((sizes.find? (·.1 == n)).map (·.2)).getD 0, es)
     let (bytes, zok) := BW.writeBigBedZ ⟨nat (c.opt "ips" "1024"), nat (c.opt "bs" "256"), sorted⟩ blobs autosql
-      (ASN.fieldCount ASN.asciiCC true autosql) input
+      (ASN.fieldCount ASN.rustCC true (utf8Decode autosql)) input
     if !zok then ["BYTES blocks-do-not-inflate-to-the-model-sections"] else
     -- the theorem-carrying model `BBI.bedFileOf` (subject of `bed_model_roundtrip`) with the zoom directory / autoSql /
     -- summary / zoom areas of these bytes must reproduce them exactly
     let cs : List BBI.ChromBedIn := input.map fun ch => ⟨ch.1, ch.2.1, ch.2.2.map fun x => ⟨x.s, x.e, x.rest⟩⟩
     let zc := (bytes.drop 6).headD 0 + 256 * (bytes.drop 7).headD 0
-    let fc := ASN.fieldCount ASN.asciiCC true autosql
+    let fc := ASN.fieldCount ASN.rustCC true (utf8Decode autosql)
     let midLen := 240 + autosql.length + 1 + 40 + 8
     let mk (tail : List Nat) : BBI.BOpts :=
       ⟨nat (c.opt "ips" "1024"), nat (c.opt "bs" "256"), zc, 304 + autosql.length + 1 + 40, fc, fc, 304, 304 + autosql.length + 1, 0,
